@@ -57,6 +57,12 @@ CHECKS = {
     "C13": dict(level="other", technique="term evaluation of every Stress/StrainRate/Strain overload of both Newtonian fluid classes; slot-wise algebraic comparison with 2 mu D (+ mu_b tr(D) I) and its inverse; leaf-set independence; override table",
                 text="Decides the linear viscous law and its exact inverse for all three overloads of both classes and all numeric types, the zero stubs, the ignored strain argument and the zero bulk viscosity default. Per-precision accuracy is not decided.",
                 note="trusted: clang front end, evaluator, sympy, oracle/elasticity.py", ref="3/C13"),
+    "C02": dict(level="other", technique="data-flow / term evaluation of every conversion entry point with concrete unit enumerators; each result slot's affine map over Q(pi) compared with the composition of the Conversion kernels of C01; copying forms shown not to modify their argument",
+                text="Decides that construction converts once, that Value/StaticValue/Create/Print/JSON/XML/YAML(unit) and all 20 free convert overloads for every container shape apply exactly From_Y o To_X slot by slot (hence agree with the scalar conversion), that unit-to-itself is the identity map and that copying forms leave the argument unchanged. The size of the read-back rounding error is bounded only through C01.R4.",
+                note="trusted: clang front end, evaluator; quick tier: 3 units per unit type for member entry points, thorough tier: all units", ref="3/C02"),
+    "C15": dict(level="other", technique="interval analysis of the decision tree of PhQ::Print<T>; string-template evaluation of all Print/JSON/XML/YAML members (JSON parsed, XML/YAML matched); operator<< = Print()",
+                text="Decides notation, precision (max_digits10+1 significant digits per decade), zero handling, component order, labels, unit abbreviation and JSON well-formedness for all values and types, and that parsing uses the matching strto*. Bit-exact parse-back then follows from the IEEE round-trip theorem given a correctly rounding libc, which is trusted, not checked.",
+                note="trusted: clang front end, evaluator, libc printf/strto* correct rounding", ref="3/C15"),
 }
 
 NOT_YET = {
